@@ -83,6 +83,21 @@ def dict_from_yaml(path: str):
     return template_dict
 
 
+def _to_python(obj):
+    """Values set with numpy (update_var with numpy scalars, add_edges_from_matrix) are written as plain Python numbers and
+    lists: the YAML representer does not know numpy types."""
+    import numpy as np
+    if isinstance(obj, dict):
+        return {key: _to_python(val) for key, val in obj.items()}
+    if isinstance(obj, (list, tuple)):
+        return type(obj)(_to_python(val) for val in obj)
+    if isinstance(obj, np.generic):
+        return obj.item()
+    if isinstance(obj, np.ndarray):
+        return obj.tolist()
+    return obj
+
+
 def dump_to_yaml(circuit, path: str, **kwargs) -> None:
     """Interface to dump a `CircuitTemplate` instance to YAML.
 
@@ -99,6 +114,7 @@ def dump_to_yaml(circuit, path: str, **kwargs) -> None:
 
     dict_repr = {}
     dict_from_circuit(circuit, dict_repr)
+    dict_repr = _to_python(dict_repr)
 
     from ruamel.yaml import YAML
     yaml = YAML()
